@@ -68,6 +68,10 @@ var (
 	siteCounter int64
 )
 
+// The in-process router takes the place of http.DefaultTransport when the package is loaded,
+// i.e. before any test goroutine exists (client-go reads that variable concurrently).
+func init() { InstallHookTransport() }
+
 // InstallHookTransport replaces http.DefaultTransport with the in-process router (idempotent).
 func InstallHookTransport() {
 	installOnce.Do(func() { http.DefaultTransport = router })
